@@ -199,7 +199,7 @@ fn classify(f: &WorldFailure, _ops: &[Op], _opt: &OptSet) -> String {
 pub fn check(tier: Tier) -> i32 {
 	surrealkv::verif::set_forced_height(1);
 	let mut report = Report::new("C11", tier, "model_checking");
-	let budget = Budget::new(if tier == Tier::Quick { 40.0 } else { 1000.0 });
+	let budget = Budget::new(if tier == Tier::Quick { 30.0 } else { 1000.0 });
 	// no block cache: a cached value would hide a pointer whose file is gone
 	let mut opts = vec![OptSet::base("L2-vlog8-64-cache0").with_vlog(8, 64).cache(0), OptSet::base("L2-versioned-vlog64-cache0").versioned(0, false).with_vlog(0, 64).cache(0)];
 	if tier == Tier::Thorough {
@@ -226,7 +226,7 @@ pub fn check(tier: Tier) -> i32 {
 	}
 	eprintln!("C11: world part done at {:.1}s", budget.elapsed());
 	// --- history part: every version of every key through the value log (time-travel reads) ---
-	let hist_budget = Budget::new(if tier == Tier::Quick { 12.0 } else { 300.0 });
+	let hist_budget = Budget::new(if tier == Tier::Quick { 8.0 } else { 300.0 });
 	let mut hist_evals = 0u64;
 	if all_complete {
 		let kinds = [Kind::Set, Kind::SoftDelete, Kind::Delete, Kind::Replace];
@@ -324,7 +324,7 @@ pub fn check(tier: Tier) -> i32 {
 	report.set("size_sweep_runs", json!(sweep_runs));
 	eprintln!("C11: history part and size sweep done at {:.1}s", budget.elapsed());
 	// --- crash part: power-loss / process-crash images of value-log workloads ---
-	let code = crate::props::crash::run_into(&mut report, "C11", tier, if tier == Tier::Quick { 14.0 } else { 600.0 });
+	let code = crate::props::crash::run_into(&mut report, "C11", tier, if tier == Tier::Quick { 10.0 } else { 600.0 });
 	if code != 0 {
 		return code;
 	}
@@ -332,7 +332,7 @@ pub fn check(tier: Tier) -> i32 {
 	let crash_evals = report.coverage.get("evaluations").and_then(|v| v.as_u64()).unwrap_or(0);
 	report.set("crash_image_evaluations", json!(crash_evals));
 	// --- schedule part: a flush (with its obsolete-file clean-up) while a compaction is in flight ---
-	let code = crate::props::sched::run_into(&mut report, "C11", tier, if tier == Tier::Quick { 8.0 } else { 200.0 });
+	let code = crate::props::sched::run_into(&mut report, "C11", tier, if tier == Tier::Quick { 6.0 } else { 200.0 });
 	if code != 0 {
 		return code;
 	}
